@@ -399,6 +399,102 @@ pub fn generate(r: &mut Rng, contradictory: bool) -> Generated {
     }
 }
 
+/// A type nested `depth` levels deep, described twice with different
+/// variables: only the two outermost variables are declared equal, every
+/// deeper pair becomes equal through component unification, one level per
+/// round of the unifier.
+pub fn generate_deep(r: &mut Rng) -> Generated {
+    let depth = 12 + r.usize_below(50);
+    // class 0 = leaf word, class i = constructor over class i-1
+    let leaf_usage = *r.pick(&[WordUse::Address, WordUse::UnsignedNumeric, WordUse::SignedNumeric, WordUse::Bool]);
+    let leaf_width = leaf_usage.size().or(Some(64));
+    let mut truths = vec![Truth::Word {
+        width: leaf_width,
+        usage: leaf_usage,
+    }];
+    let mut key_class = None;
+    for i in 1..=depth {
+        let t = match r.below(3) {
+            0 => Truth::DynArray { element: i - 1 },
+            1 => Truth::FixedArray {
+                element: i - 1,
+                length:  *r.pick(&[3u64, 5]),
+            },
+            _ => {
+                // mapping with a shared word key class (added below)
+                key_class = Some(depth + 1);
+                Truth::Mapping {
+                    key:   depth + 1,
+                    value: i - 1,
+                }
+            }
+        };
+        truths.push(t);
+    }
+    if key_class.is_some() {
+        truths.push(Truth::Word {
+            width: Some(160),
+            usage: WordUse::Address,
+        });
+    }
+    let n_classes = truths.len();
+    // two variables per class: the "left" and the "right" description
+    let mut class_of = Vec::new();
+    for c in 0..n_classes {
+        class_of.push(c);
+        class_of.push(c);
+    }
+    let var = |c: usize, side: usize| 2 * c + side;
+    let mut judgements: Vec<(usize, Ev)> = Vec::new();
+    let mut emitted: Vec<Vec<Ev>> = vec![Vec::new(); n_classes];
+    for c in 0..n_classes {
+        for side in 0..2 {
+            let e = match truths[c].clone() {
+                Truth::Word { width, usage } => {
+                    // the two sides give different, compatible weakenings
+                    let below_u = below(usage);
+                    let u = if side == 0 { usage } else { *r.pick(&below_u) };
+                    let w = match u.size() {
+                        Some(fixed) => Some(fixed),
+                        None => width,
+                    };
+                    Ev::word(w, u)
+                }
+                Truth::DynArray { element } => Ev::DynArray { element: var(element, side) },
+                Truth::FixedArray { element, length } => Ev::FixedArray {
+                    element: var(element, side),
+                    length,
+                },
+                Truth::Mapping { key, value } => Ev::Mapping {
+                    key:   var(key, side),
+                    value: var(value, side),
+                },
+                _ => Ev::Any,
+            };
+            emitted[c].push(e.clone());
+            judgements.push((var(c, side), e));
+        }
+    }
+    // Only the outermost pair is declared equal.
+    judgements.push((var(depth, 0), Ev::Equal { other: var(depth, 1) }));
+    r.shuffle(&mut judgements);
+    Generated {
+        ev: EvidenceSet {
+            n_vars: class_of.len(),
+            judgements,
+        },
+        model: Model {
+            class_of,
+            truths,
+            emitted,
+        },
+        target: None,
+        injected: None,
+        packed_classes: 0,
+        pushed_words: 0,
+    }
+}
+
 fn rep_of(model: &Model, c: usize) -> usize {
     model.class_of.iter().position(|x| *x == c).unwrap()
 }
@@ -597,7 +693,7 @@ impl Check for C15Check {
         CheckInfo {
             id: "C15",
             level: "exploration",
-            rule: "case = one hidden ground-truth typing over 2..10 classes (words of every usage and widths {?,8,32,64,128,160,256}, dynamic bytes, mappings, dynamic and fixed arrays, packed words of one or two sized fields, nesting <= 3) with 1..3 variables per class; compatible sets emit, per class, 1..5 weakenings of the true type (usage at or below it in the documented order, width kept or dropped, Any, the same constructor over existing or fresh-but-equated component variables) plus a spanning tree of equalities; contradictory sets (every second case) add exactly one judgement from the property's list to one class (a different known width, an incompatible usage, a mapping against an array or a sized word, a fixed array of a different 256-bit length); each set is unified under 8 schedules and compared with the reference model. evaluations = unifier runs; non-trivial = the run folded at least one class with >= 2 pieces; distinct = distinct (set, fold-order digest), counted with a hash set",
+            rule: "case = one hidden ground-truth typing over 2..10 classes (words of every usage and widths {?,8,32,64,128,160,256}, dynamic bytes, mappings, dynamic and fixed arrays, packed words of one or two sized fields, nesting <= 3) with 1..3 variables per class; compatible sets emit, per class, 1..5 weakenings of the true type (usage at or below it in the documented order, width kept or dropped, Any, the same constructor over existing or fresh-but-equated component variables) plus a spanning tree of equalities; contradictory sets (every second case) add exactly one judgement from the property's list to one class (a different known width, an incompatible usage, a mapping against an array or a sized word, a fixed array of a different 256-bit length); 1 in 32 sets is instead a type nested 12..61 levels deep described twice with different variables, only the outermost pair declared equal (one level is resolved per round of the unifier); each set is unified under 8 schedules and compared with the reference model. evaluations = unifier runs; non-trivial = the run folded at least one class with >= 2 pieces; distinct = distinct (set, fold-order digest), counted with a hash set",
             assumptions: &[
                 "reference model: congruence closure over declared equalities + the word lattice documented at WordUse::merge (bytes below everything; numeric below unsigned, signed, address; unsigned below address; bool, selector, function only above bytes); known width beats unknown",
                 "dynamic array vs word and dynamic bytes vs word are not injected as contradictions: the code treats them as compatible on purpose and the property does not list them",
@@ -618,7 +714,11 @@ impl Check for C15Check {
         let mut res = CaseResult::default();
         let mut r = Rng::new(seed);
         let contradictory = idx % 2 == 1;
-        let g = generate(&mut r, contradictory);
+        let deep = !contradictory && idx % 32 == 0;
+        let g = if deep { generate_deep(&mut r) } else { generate(&mut r, contradictory) };
+        if deep {
+            res.probe("deeply_nested_type_described_twice");
+        }
         if contradictory {
             if g.target.is_some() {
                 res.fault("contradictory_judgement_injected");
@@ -658,7 +758,7 @@ impl Check for C15Check {
                     property:  "C15".into(),
                     signature: sig,
                     detail:    json!({"case": idx, "seed": seed, "contradictory": contradictory, "schedule": sched.label(), "explanation": detail, "judgements": g.ev.judgements.iter().map(|(v, e)| format!("v{v}: {}", e.kind())).collect::<Vec<_>>()}),
-                    replay:    json!({"check": "C15", "kind": "generated", "seed": seed, "contradictory": contradictory, "sched": sched}),
+                    replay:    json!({"check": "C15", "kind": "generated", "seed": seed, "contradictory": contradictory, "deep": deep, "sched": sched}),
                 });
                 break;
             }
@@ -675,7 +775,7 @@ impl Check for C15Check {
         let contradictory = payload["contradictory"].as_bool().unwrap_or(false);
         let sched: Sched = serde_json::from_value(payload["sched"].clone()).map_err(|e| e.to_string())?;
         let mut r = Rng::new(seed);
-        let g = generate(&mut r, contradictory);
+        let g = if payload["deep"].as_bool() == Some(true) { generate_deep(&mut r) } else { generate(&mut r, contradictory) };
         let o = run_unify(&g.ev, &sched, &UnifyOpts::default());
         Ok(compare(&g, &o).map(|(sig, detail)| Violation {
             property:  "C15".into(),
